@@ -29,11 +29,36 @@ RULE_TEXT = ('obligation = one clause of R19a-c on one return path of the two __
              '(sign, bounds, monotonicity, zero-when-satisfied, ramp end points)')
 
 
+def _num_fail(ctx, what: str, ex, fn):
+    """A failure of the numeric evaluation: a division whose divisor can be zero is a finding
+    (the penalty is not finite for an admissible epoch count); anything else means the code left
+    the modelled subset."""
+    if 'division by' in str(ex):
+        ctx.ob('R19b', f'{what} finite', False,
+               f'{ex}: for an admissible argument (n_epochs = 1 is the default) the penalty is '
+               f'inf / NaN or raises', where(fn))
+        return
+    raise AnalysisError(f'{what} is outside the numeric domain: {ex}')
+
+
 def duccio_inputs(call: Term, strength: Term, target: Term, epoch: Term, nep: Term, ranges):
     def inp(t):
         if t == strength:
             lo, hi = ranges['s']
             return AV(lo, hi, {'s': 1})
+        # excess = cost - target, when constrained by the scenario
+        if 'x' in ranges and t[0] == 'bin' and t[1] == '-' and t[3] == target and \
+                method_call(t[2]) and method_call(t[2])[1] == 'get_cost':
+            lo, hi = ranges['x']
+            return AV(lo, hi, {'c': 1, 't': -1})
+        if 'x' in ranges:
+            # cost and target read in another arrangement: a representative target of 10 and
+            # the cost in 10 + (range of the excess)
+            lo, hi = ranges['x']
+            if t == target:
+                return AV(10.0, 10.0, {})
+            if t[0] == 'call' and method_call(t) and method_call(t)[1] == 'get_cost':
+                return AV(10.0 + lo, 10.0 + hi, {'c': 1})
         if t == target:
             return AV(-INF, INF, {'t': 1})
         if t == epoch:
@@ -42,11 +67,6 @@ def duccio_inputs(call: Term, strength: Term, target: Term, epoch: Term, nep: Te
             return AV(1.0, INF, {'n': 1})
         if t[0] == 'call' and method_call(t) and method_call(t)[1] == 'get_cost':
             return AV(-INF, INF, {'c': 1})
-        # excess = cost - target, when constrained by the scenario
-        if 'x' in ranges and t[0] == 'bin' and t[1] == '-' and t[3] == target and \
-                method_call(t[2]) and method_call(t[2])[1] == 'get_cost':
-            lo, hi = ranges['x']
-            return AV(lo, hi, {'c': 1, 't': -1})
         return None
     return inp
 
@@ -128,6 +148,14 @@ def run(ctx):
                 if x[0] == 'bin' and x[1] == '-' and x[3] == tg and method_call(x[2]) and \
                         method_call(x[2])[1] == 'get_cost' and x[2][2] == (nm,):
                     return AV(xr[0], xr[1], {'c' + tag: 1})
+                # cost and target read separately (any other arrangement than cost - target):
+                # a representative target of 10, the satisfied metric in [0, 10], the violated
+                # one above 10
+                if x == tg:
+                    return AV(10.0, 10.0, {})
+                if method_call(x) and method_call(x)[1] == 'get_cost' and x[2] == (nm,):
+                    return AV(0.0, 10.0, {'c1': 1}) if tag == '1' else \
+                        AV(10.0 + 1e-6, INF, {'c2': 1})
             if x == epoch:
                 return AV(0.0, INF, {'e': 1})
             if x == nep:
@@ -136,7 +164,8 @@ def run(ctx):
         try:
             v2 = NumEval(repo, inp2).ev(t)
         except NumError as ex:
-            raise AnalysisError(f'DUCCIO two-constraint scenario outside the numeric domain: {ex}')
+            _num_fail(ctx, 'DUCCIO two-constraint scenario', ex, call)
+            continue
         ok = v2.lo > 0 and v2.d('c2') == 1
         ctx.ob('R19b', f'DUCCIO.__call__ one satisfied + one violated constraint [{k}]', ok,
                'penalty > 0 and growing with the violated cost, whatever the slack of the other'
@@ -194,7 +223,7 @@ def run(ctx):
                    f'with a positive strength and a cost above target the penalty can be '
                    f'{vp.lo} (not > 0)', where(call))
         except NumError as e:
-            raise AnalysisError(f'DUCCIO.__call__ is outside the numeric domain: {e}')
+            _num_fail(ctx, 'DUCCIO.__call__', e, call)
         # effective strength: the factor that multiplies the relu
         effs = [x for x in subterms(t) if is_call(x, 'torch.min', 'torch.minimum')]
         ok_eff = len(effs) == 1 and len(effs[0][2]) == 2 and strength in effs[0][2]
@@ -216,7 +245,7 @@ def run(ctx):
                        ev_.lo >= 0, f'eff >= {ev_.lo}; eff <= strength by the min' if ev_.lo >= 0
                        else 'effective strength can be negative', where(call))
             except NumError as e:
-                raise AnalysisError(f'DUCCIO ramp outside the numeric domain: {e}')
+                _num_fail(ctx, 'DUCCIO ramp', e, call)
             at0 = poly.equal(ramp, ('bin', '/', strength, ('const', 100)),
                              {epoch: ('const', 0)})
             ctx.ob('R19b', f'DUCCIO ramp(epoch=0) == strength/100 [{k}]', at0,
